@@ -187,12 +187,12 @@ static void cmd_enq (unsigned p, unsigned v, unsigned size)
       emit ("skip writer-already-blocked");
       return;
     }
-  if ((q_flags & ASYNC_QUEUE_BLOCK_WRITER) && async_queue_is_full (q))
+  if ((q_flags & ASYNC_QUEUE_BLOCK_WRITER) && !(q_flags & ASYNC_QUEUE_DROP_OLDEST) && size > 0 && async_queue_is_full (q))
     {
       /* the call may sleep on not_full: make it from a helper thread and see whether it comes back */
       bw.p = p, bw.v = v, bw.size = size, bw.done = 0;
       pthread_create (&bw.th, 0, bw_thread, 0);
-      if (wait_flag (&bw.done, 60))
+      if (wait_flag (&bw.done, 250))
         {
           pthread_join (bw.th, 0);
           emit ("enq %u %u %u %s", p, v, size, bw.rc ? "ok" : "fail");
@@ -521,6 +521,7 @@ static platform_timer_t tm;
 static int tm_inited;
 static unsigned long tm_interval_ms;
 static volatile int tm_count;
+static unsigned long tm_slept;	/* ms slept while the timer was active since the last tticks / start / stop */
 
 static void tm_callback (void)
 {
@@ -548,6 +549,7 @@ static int timer_cmd (char **tok, int n)
       if (rc == 0)
         {
           tm_interval_ms = ms;
+          tm_slept = 0;
           __atomic_store_n (&tm_count, 0, __ATOMIC_RELEASE);
         }
       emit ("tstart %lu %d", ms, rc);
@@ -559,6 +561,7 @@ static int timer_cmd (char **tok, int n)
       int rc = platform_timer_stop (&tm);
       long el = now_ms () - t0;
       __atomic_store_n (&tm_count, 0, __ATOMIC_RELEASE);	/* from here on every callback is "after stop" */
+      tm_slept = 0;
       emit ("tstop %d %s", rc, el <= (long) tm_interval_ms + SLACK_MS ? "within" : "overran");
       return 1;
     }
@@ -569,6 +572,8 @@ static int timer_cmd (char **tok, int n)
     }
   if (!strcmp (tok[0], "tsleep") && n == 2)
     {
+      if (tm_inited && platform_timer_is_active (&tm))
+        tm_slept += strtoul (tok[1], 0, 10);
       msleep (atol (tok[1]));
       emit ("tsleep %s", tok[1]);
       return 1;
@@ -576,7 +581,10 @@ static int timer_cmd (char **tok, int n)
   if (!strcmp (tok[0], "tticks") && n == 1)
     {
       int c = __atomic_exchange_n (&tm_count, 0, __ATOMIC_ACQ_REL);
-      emit ("tticks %s", c > 0 ? "some" : "none");
+      /* too short a sleep to promise a tick: the class is not determined by the schedule */
+      int amb = tm_inited && platform_timer_is_active (&tm) && tm_slept > 0 && tm_slept < 10 * tm_interval_ms;
+      tm_slept = 0;
+      emit ("tticks %s", amb ? "ambiguous" : c > 0 ? "some" : "none");
       return 1;
     }
   if (!strcmp (tok[0], "tafter") && n == 1)
@@ -594,6 +602,7 @@ static int timer_cmd (char **tok, int n)
       else
         {
           platform_timer_cleanup (&tm);
+          tm_slept = 0;
           __atomic_store_n (&tm_count, 0, __ATOMIC_RELEASE);
           tm_inited = 0;
           emit ("tcleanup");
